@@ -18,6 +18,9 @@
 //!
 //! [`PoolImpl`]: crate::consensus::pool::PoolImpl
 
+#[cfg(feature = "verif-hooks")]
+mod verif;
+
 use std::collections::BTreeMap;
 use std::collections::btree_map::Entry;
 
